@@ -27,3 +27,17 @@ func lemmaSign1DecodeThenVerify(data, external []byte, verifier Verifier) (*Sign
 	}
 	return m, m.Verify(external, verifier)
 }
+
+// lemmaSign1DecodeThenEncode: re-encoding a received COSE_Sign1 emits the
+// received header bytes, payload and signature (C09, C08).
+func lemmaSign1DecodeThenEncode(data []byte) (*Sign1Message, []byte) {
+	m := new(Sign1Message)
+	if err := m.UnmarshalCBOR(data); err != nil {
+		return nil, nil
+	}
+	out, err := m.MarshalCBOR()
+	if err != nil {
+		return m, nil
+	}
+	return m, out
+}
